@@ -64,4 +64,36 @@ def build(reg):
              'self.state == 3 ==> (old(self.state) == 1 and not isnone(old(self.size)) and old(self.size) == 0 and %s.find(%s) >= 0)' % (X, CRLF)),
         ],
         raises={'ValueError': [('only-from-a-size-line', 'old(self.state) == 1')]}))
+    T += body_contracts(reg)
     return T
+
+
+def body_contracts(reg):
+    """HttpParser._process_body, Content-Length framing: exactly the missing bytes are taken, the
+    rest is returned untouched, completion exactly when the declared length is reached."""
+    proxyplugin.add_parser_class(reg)
+    pf = dict(proxyplugin.PARSER_FIELDS)
+    pf['chunk'] = ('opt', ('obj', 'ChunkParser'))
+    reg.klass('HttpParser', py='proxy.http.parser.parser:HttpParser', fields=pf)
+    CL = "int_dec(self.headers[b'content-length'][1])"
+    HAVE = "(b'' if isnone(old(self.body)) else old(self.body))"
+    NEED = '(%s - len(%s))' % (CL, HAVE)
+    return [reg.contract(
+        PF, 'HttpParser._process_body', self_cls='HttpParser', params={'raw': 'mv'}, result=('tuple', 'bool', 'mv'),
+        requires=[('content-length-framing', 'not self._is_chunked_encoded and self._content_expected'),
+                  ('header-present', "not isnone(self.headers) and self.headers.has(b'content-length') and "
+                                     "int_dec_ok(self.headers[b'content-length'][1]) and %s > 0" % CL),
+                  ('body-so-far', 'isnone(self.body) or len(self.body) < %s' % CL.replace('old(', '(')),
+                  ('state', 'self.state == 4 or self.state == 5')],
+        modifies=['self.state', 'self.body'],
+        ensures=[('takes-exactly-the-missing-bytes', 'self.body == %s + raw[:%s]' % (HAVE, NEED)),
+                 ('rest-untouched', 'result[1] == raw[%s:]' % NEED),
+                 ('complete-exactly-at-declared-length', '(self.state == 6) == (len(self.body) == %s)' % CL),
+                 ('otherwise-receiving', 'self.state == 6 or self.state == 5'),
+                 ('more-flag', 'result[0] == (len(raw) > 0)')],
+        raises={})]
+
+
+def bounded_checks(reg, tier, seed):
+    from . import parser_sweep
+    return [parser_sweep.sweep(tier, seed)]
